@@ -131,6 +131,8 @@ class IncludeScenario(Scenario):
         r = rng.random()
         if r < 0.15:
             return {"op": "combine", "base": gen_tree(rng), "child": gen_tree(rng)}
+        if r < 0.25:
+            return {"op": "chdir", "to": rng.choice(["/work", "/data", "/inc", "/work/rel"])}
         fmt = rng.choice(ops.FORMATS)
         files = {}
 
@@ -189,7 +191,12 @@ class IncludeScenario(Scenario):
             for p in acc:
                 if p not in files and rng.random() < 0.85:
                     files[p] = gen_tree(rng)
-        op = {"op": "load", "fmt": fmt, "main": main, "files": files}
+        opts = {}
+        if fmt == "xml" and rng.random() < 0.4:
+            opts["root_tag"] = rng.choice(["app", "settings"])
+        if fmt == "yaml" and rng.random() < 0.4:
+            opts["root_key"] = rng.choice(["CONFIG", "root"])
+        op = {"op": "load", "fmt": fmt, "main": main, "files": files, "opts": opts}
         if files and rng.random() < st.h["p_fault"]:
             victim = rng.choice(sorted(files))
             op["fault"] = {"path": victim, "how": rng.choice(["missing", "directory", "unreadable", "garbage", "other-format", "torn", "open-err"]),
@@ -205,6 +212,15 @@ class IncludeScenario(Scenario):
             return None, exc
 
     def apply(self, st, op, rec):
+        if op["op"] == "chdir":
+            # the process changes its working directory after the schema was defined: relative start directories
+            # and relative include paths resolve against the directory current at load time
+            st.world.cwd = op["to"]
+            for d in ("rel", "rel/sub", "sub"):
+                st.world.dirs.add(st.world.abspath(d))
+            rec.log("chdir", op["to"])
+            rec.probe("chdir")
+            return
         if op["op"] == "combine":
             self.do_combine(st, op, rec)
         else:
@@ -245,7 +261,7 @@ class IncludeScenario(Scenario):
                 raise LookupError("include %r -> %r is not an existing file" % (fn, p))
             if p in st.world.unreadable or p == getattr(st, "open_err_path", None):
                 raise LookupError("unreadable include")
-            child = ops.parse_doc(fmt, st.world.peek(p)) if fmt != "xml" else self.xml_tree(st.world.peek(p))
+            child = ops.parse_doc(fmt, st.world.peek(p), st.opts) if fmt != "xml" else self.xml_tree(st.world.peek(p), st.opts)
             if not isinstance(child, dict):
                 raise LookupError("include is not a map")
             trace.append(p)
@@ -255,9 +271,9 @@ class IncludeScenario(Scenario):
                 tree[k] = self.ref_process(st, sub, tree[k], fmt, trace)
         return tree
 
-    def xml_tree(self, content):
+    def xml_tree(self, content, opts=None):
         from cincoconfig.formats.xml import XmlConfigFormat
-        return XmlConfigFormat().loads(None, content)
+        return XmlConfigFormat(**(opts or {})).loads(None, content)
 
     def do_load(self, st, op, rec):
         w = st.world
@@ -267,9 +283,13 @@ class IncludeScenario(Scenario):
         if not all(ops.in_format_domain(fmt, t) for t in trees):
             rec.log("load", "out-of-domain")
             return
+        opts = op.get("opts", {})
+        st.opts = opts
+        # include paths were resolved when the operation was generated; with a changed working directory the
+        # relative ones resolve elsewhere, so the files are (re)located by resolving again now
         for p, t in op["files"].items():
-            w.poke(p, ops.write_doc(fmt, t))
-        w.poke("/data/main.cfg", ops.write_doc(fmt, main))
+            w.poke(p, ops.write_doc(fmt, t, opts))
+        w.poke("/data/main.cfg", ops.write_doc(fmt, main, opts))
         fault = op.get("fault")
         faulted = False
         if fault and fault["path"] in op["files"]:
@@ -287,6 +307,8 @@ class IncludeScenario(Scenario):
             elif how == "other-format":
                 other = "json" if fmt != "json" else "xml"
                 w.poke(p, ops.write_doc(other, op["files"][p] if ops.in_format_domain(other, op["files"][p]) else {}))
+            elif how == "wrong-options" and opts:
+                w.poke(p, ops.write_doc(fmt, op["files"][p]))      # written without the options the load is given
             elif how == "torn":
                 doc = w.peek(p)
                 w.poke(p, doc[: fault["n"] % max(1, len(doc))])
@@ -309,7 +331,10 @@ class IncludeScenario(Scenario):
         if serials is None:
             serials = st.serials = snapshot.Serials()
         s0 = snapshot.snap(cfg, serials)
-        _, err = self._call(lambda: cfg.load("/data/main.cfg", fmt))
+        if opts:
+            _, err = self._call(lambda: cfg.loads(w.peek("/data/main.cfg"), fmt, **opts))
+        else:
+            _, err = self._call(lambda: cfg.load("/data/main.cfg", fmt))
         if self.prop == "C06":
             rec.log("load", fmt, fault and fault["how"], type(err).__name__ if err else "ok")
             rec.kind(fmt + (":" + fault["how"] if faulted else ""))
